@@ -603,10 +603,43 @@ struct Run {
 }
 
 fn run_cli(args: &[String]) -> Run {
-    let out = Command::new(CLI).args(args).env_remove("RUST_BACKTRACE").output();
-    match out {
-        Ok(o) => Run { code: o.status.code(), stdout: o.stdout, stderr: String::from_utf8_lossy(&o.stderr).to_string() },
-        Err(e) => Run { code: None, stdout: vec![], stderr: format!("spawn failed: {e}") },
+    // (a run that does not end is killed after 60 s - no query here waits longer than a few seconds - and reported as such)
+    use std::io::Read;
+    use std::process::Stdio;
+    let child = Command::new(CLI).args(args).env_remove("RUST_BACKTRACE").stdin(Stdio::null()).stdout(Stdio::piped()).stderr(Stdio::piped()).spawn();
+    let mut child = match child {
+        Ok(c) => c,
+        Err(e) => return Run { code: None, stdout: vec![], stderr: format!("spawn failed: {e}") },
+    };
+    let (mut so, mut se) = (child.stdout.take().unwrap(), child.stderr.take().unwrap());
+    let t_out = std::thread::spawn(move || {
+        let mut b = Vec::new();
+        let _ = so.read_to_end(&mut b);
+        b
+    });
+    let t_err = std::thread::spawn(move || {
+        let mut b = Vec::new();
+        let _ = se.read_to_end(&mut b);
+        b
+    });
+    let t0 = std::time::Instant::now();
+    let status = loop {
+        match child.try_wait() {
+            Ok(Some(st)) => break Some(st),
+            Ok(None) if t0.elapsed() > Duration::from_secs(60) => {
+                let _ = child.kill();
+                let _ = child.wait();
+                break None;
+            }
+            Ok(None) => std::thread::sleep(Duration::from_millis(5)),
+            Err(_) => break None,
+        }
+    };
+    let stdout = t_out.join().unwrap_or_default();
+    let stderr = String::from_utf8_lossy(&t_err.join().unwrap_or_default()).to_string();
+    match status {
+        Some(st) => Run { code: st.code(), stdout, stderr },
+        None => Run { code: None, stdout, stderr: format!("no exit within 60 s (killed); stderr so far: {}", clip(&stderr, 200)) },
     }
 }
 
@@ -629,7 +662,7 @@ impl Prop for C19 {
          whose values equal what the library returns in-process for the same server. (2) every id of the definitions table (97, \
          Eco over loopback HTTP) against its family's seed server: 2 of the 12 (mode, format) pairs per id, rotating, in the quick tier; \
          all 12 in thorough. (3) invalid invocations (unknown game ids of 30+ shapes: empty, 1-3 letters, wrong case, suffixed, multi-byte characters at byte offsets 0..5, \
-         unresolvable host, closed UDP port, refused TCP, each flag with missing / empty / 0 / -1 / non-numeric / out-of-range \
+         unresolvable host, closed UDP port / refused TCP for one game of every protocol family incl. the HTTP one, each flag with missing / empty / 0 / -1 / non-numeric / out-of-range \
          values): non-zero exit other than 101, a message on stderr, no 'panicked at'. distinct_nontrivial = distinct (game, \
          slot, class, mode, format, verdict) tuples"
             .into()
@@ -829,6 +862,12 @@ impl Prop for C19 {
                     ("unresolvable host (non-ASCII)".into(), base("teamfortress2", "tf²–nö.invalid", closed_udp)),
                     ("closed UDP port".into(), base("teamfortress2", "127.0.0.1", closed_udp)),
                     ("refused TCP".into(), base("minecraftjava", "127.0.0.1", refused_tcp)),
+                    // (the HTTP family reports a transport error that wraps the socket error: a cause with a cause)
+                    ("refused TCP (HTTP family)".into(), base("eco", "127.0.0.1", refused_tcp)),
+                    ("closed UDP port (Quake)".into(), base("q3a", "127.0.0.1", closed_udp)),
+                    ("closed UDP port (Unreal 2)".into(), base("unrealtournament2004", "127.0.0.1", closed_udp)),
+                    ("closed UDP port (GameSpy)".into(), base("battlefield1942", "127.0.0.1", closed_udp)),
+                    ("refused TCP / closed UDP (Minecraft auto)".into(), base("minecraft", "127.0.0.1", refused_tcp)),
                     ("no subcommand".into(), vec![]),
                     ("missing game".into(), vec!["query".into(), "-i".into(), "127.0.0.1".into()]),
                 ];
